@@ -8,8 +8,12 @@ import LocustModel.Prim
     double_delta_encode::<T>          → `ddEncode`
     Column::deserialize_reader        → `decode`      (Range / Delta* / DoubleDelta* / I64 arms)
 
-  i64 arithmetic is the dev-profile one (`LM.subI64`/`addI64`/`mulI64` fault on overflow);
-  the `i128` statistics are plain `Int` (they cannot leave i128: |delta| < 2^64, |delta_delta| < 2^65).
+  i64 arithmetic is the dev-profile one (`LM.subI64`/`addI64` fault on overflow) where the code uses
+  `-` / `+=`, and `LM.wrap64` where it uses `wrapping_sub` / `wrapping_add` / `wrapping_mul` (the
+  double-delta encoder and decoders and the Range decoder since the fixes of findings
+  `api-delta-i64-overflow` and `api-range-decode-mul-overflow`).
+  The `i128` statistics are plain `Int`: both operands are cast to i128 before the subtraction, so
+  |delta| < 2^64 and |delta_delta| < 2^65 cannot leave i128 (`deltas_in_i128`, `ddeltas_in_i128` in Lemmas/C16Ints).
   The capnp message (`List(Int8)` …) is the identity on the `Layout` tree (trusted).
   Core-only imports: this file is linked into the driver.
 -/
@@ -48,26 +52,22 @@ inductive Layout where
   deriving Repr, DecidableEq
 
 /-- The `for curr in &ints[2..]` loop of `determine_delta_compressability`.
-    `(*curr - previous)` is an **i64** subtraction (cast to i128 afterwards): it faults on overflow.
-    `delta - previous_delta` is i128 arithmetic. -/
-def statsLoop : List Int → Int → Int → DeltaStats → Except Fault DeltaStats
-  | [], _, _, st => .ok st
+    `*curr as i128 - previous as i128` and `delta - previous_delta` are exact i128 arithmetic. -/
+def statsLoop : List Int → Int → Int → DeltaStats → DeltaStats
+  | [], _, _, st => st
   | curr :: rest, previous, previousDelta, st =>
-    match subI64 curr previous with
-    | .error f => .error f
-    | .ok delta =>
-      let dd := delta - previousDelta
-      statsLoop rest curr delta
-        { minDelta := min st.minDelta delta, maxDelta := max st.maxDelta delta,
-          minDD := min st.minDD dd, maxDD := max st.maxDD dd }
+    let delta := curr - previous
+    let dd := delta - previousDelta
+    statsLoop rest curr delta
+      { minDelta := min st.minDelta delta, maxDelta := max st.maxDelta delta,
+        minDD := min st.minDD dd, maxDD := max st.maxDD dd }
 
 /-- `determine_delta_compressability`. -/
-def determineDelta : List Int → Except Fault DeltaStats
-  | [] | [_] => .ok { minDelta := I128_MIN, maxDelta := I128_MAX, minDD := I128_MIN, maxDD := I128_MAX }
+def determineDelta : List Int → DeltaStats
+  | [] | [_] => { minDelta := I128_MIN, maxDelta := I128_MAX, minDD := I128_MIN, maxDD := I128_MAX }
   | a :: b :: rest =>
-    match subI64 b a with           -- `(ints[1] - ints[0]) as i128`
-    | .error f => .error f
-    | .ok d0 => statsLoop rest b d0 { minDelta := d0, maxDelta := d0, minDD := I128_MAX, maxDD := I128_MIN }
+    let d0 := b - a                 -- `ints[1] as i128 - ints[0] as i128`
+    statsLoop rest b d0 { minDelta := d0, maxDelta := d0, minDD := I128_MAX, maxDD := I128_MIN }
 
 /-- Loop of `delta_encode::<T>` (`lo`/`hi` = `T::MIN`/`T::MAX`; `T::try_from(delta).unwrap()`). -/
 def deltaLoop (lo hi : Int) : Int → List Int → Except Fault (List Int)
@@ -87,29 +87,23 @@ def deltaEncode (lo hi : Int) : List Int → Except Fault (List Int)
   | [] => .error .index
   | a :: rest => deltaLoop lo hi a rest
 
-/-- Loop of `double_delta_encode::<T>`: both subtractions are i64. -/
+/-- Loop of `double_delta_encode::<T>`: `curr.wrapping_sub(previous)`, `delta.wrapping_sub(previous_delta)`,
+    then `T::try_from(delta_delta).unwrap()`. -/
 def ddLoop (lo hi : Int) : Int → Int → List Int → Except Fault (List Int)
   | _, _, [] => .ok []
   | previous, previousDelta, curr :: rest =>
-    match subI64 curr previous with
-    | .error f => .error f
-    | .ok delta =>
-      match subI64 delta previousDelta with
+    let delta := wrap64 (curr - previous)
+    let dd := wrap64 (delta - previousDelta)
+    if lo ≤ dd ∧ dd ≤ hi then
+      match ddLoop lo hi curr delta rest with
       | .error f => .error f
-      | .ok dd =>
-        if lo ≤ dd ∧ dd ≤ hi then
-          match ddLoop lo hi curr delta rest with
-          | .error f => .error f
-          | .ok ds => .ok (dd :: ds)
-        else .error .unwrap
+      | .ok ds => .ok (dd :: ds)
+    else .error .unwrap
 
 /-- `double_delta_encode::<T>(ints)`; `ints[1]` panics when fewer than two values. -/
 def ddEncode (lo hi : Int) : List Int → Except Fault (List Int)
   | [] | [_] => .error .index
-  | a :: b :: rest =>
-    match subI64 b a with
-    | .error f => .error f
-    | .ok d0 => ddLoop lo hi b d0 rest
+  | a :: b :: rest => ddLoop lo hi b (wrap64 (b - a)) rest      -- `ints[1].wrapping_sub(ints[0])`
 
 def mkDelta (w : Width) (xs : List Int) : Except Fault Layout :=
   match xs with
@@ -142,10 +136,7 @@ def ladder (st : DeltaStats) (xs : List Int) : Except Fault Layout :=
   else .ok (.plain xs)
 
 /-- Server side: `Column::Int(xs).serialize_builder`. -/
-def encode (xs : List Int) : Except Fault Layout :=
-  match determineDelta xs with
-  | .error f => .error f
-  | .ok st => ladder st xs
+def encode (xs : List Int) : Except Fault Layout := ladder (determineDelta xs) xs
 
 /-- `for i in data { last += i as i64; decoded.push(last) }` (i64 `+=`, dev profile). -/
 def deltaDecodeLoop : Int → List Int → Except Fault (List Int)
@@ -158,48 +149,30 @@ def deltaDecodeLoop : Int → List Int → Except Fault (List Int)
       | .error f => .error f
       | .ok out => .ok (l :: out)
 
-/-- `for i in data { last_delta += i as i64; last += last_delta; decoded.push(last) }`. -/
-def ddDecodeLoop : Int → Int → List Int → Except Fault (List Int)
-  | _, _, [] => .ok []
+/-- `for i in data { last_delta = last_delta.wrapping_add(i as i64); last = last.wrapping_add(last_delta);
+    decoded.push(last) }` — total. -/
+def ddDecodeLoop : Int → Int → List Int → List Int
+  | _, _, [] => []
   | last, lastDelta, i :: rest =>
-    match addI64 lastDelta i with
-    | .error f => .error f
-    | .ok ld =>
-      match addI64 last ld with
-      | .error f => .error f
-      | .ok l =>
-        match ddDecodeLoop l ld rest with
-        | .error f => .error f
-        | .ok out => .ok (l :: out)
+    let ld := wrap64 (lastDelta + i)
+    let l := wrap64 (last + ld)
+    l :: ddDecodeLoop l ld rest
 
-/-- `(0..len).map(|i| start + i as i64 * step).collect()`: i64 `*` then i64 `+`, dev profile. -/
-def rangeDecodeFrom (start step : Int) : Nat → Nat → Except Fault (List Int)
-  | _, 0 => .ok []
-  | i, n + 1 =>
-    match mulI64 (i : Int) step with
-    | .error f => .error f
-    | .ok m =>
-      match addI64 start m with
-      | .error f => .error f
-      | .ok v =>
-        match rangeDecodeFrom start step (i + 1) n with
-        | .error f => .error f
-        | .ok out => .ok (v :: out)
+/-- `(0..len).map(|i| start.wrapping_add((i as i64).wrapping_mul(step))).collect()` — total
+    (`i as i64` of a `usize` is the two's-complement cast). -/
+def rangeDecodeFrom (start step : Int) : Nat → Nat → List Int
+  | _, 0 => []
+  | i, n + 1 => wrap64 (start + wrap64 (wrap64 (i : Int) * step)) :: rangeDecodeFrom start step (i + 1) n
 
 /-- Client side: the integer arms of `Column::deserialize_reader`. -/
 def decode : Layout → Except Fault (List Int)
-  | .range start len step => rangeDecodeFrom start step 0 len
+  | .range start len step => .ok (rangeDecodeFrom start step 0 len)
   | .delta _ first data =>
     match deltaDecodeLoop first data with
     | .error f => .error f
     | .ok out => .ok (first :: out)
-  | .ddelta _ first second data =>
-    match subI64 second first with          -- `let mut last_delta = second - first;`
-    | .error f => .error f
-    | .ok d0 =>
-      match ddDecodeLoop second d0 data with
-      | .error f => .error f
-      | .ok out => .ok (first :: second :: out)
+  | .ddelta _ first second data =>           -- `let mut last_delta = second.wrapping_sub(first);`
+    .ok (first :: second :: ddDecodeLoop second (wrap64 (second - first)) data)
   | .plain xs => .ok xs
 
 /-- serialize → deserialize of an integer column, as one function. -/
@@ -221,15 +194,5 @@ def deltasFrom : Int → List Int → List Int
 def deltas : List Int → List Int
   | [] => []
   | a :: rest => deltasFrom a rest
-
-/-- Classifier of finding `api-delta-i64-overflow`: some adjacent difference does not fit i64. -/
-def diffOverflows (xs : List Int) : Bool := (deltas xs).any fun d => !decide (inI64 d)
-
-/-- Classifier of finding `api-range-decode-mul-overflow`: at least two values, all adjacent differences
-    equal (so the Range layout is chosen) and `(len-1) * step` does not fit i64. -/
-def rangeMulOverflows (xs : List Int) : Bool :=
-  match deltas xs with
-  | [] => false
-  | s :: ds => ds.all (· == s) && decide (inI64 s) && !decide (inI64 (((xs.length : Int) - 1) * s))
 
 end LM.Wire.ApiInts
